@@ -952,3 +952,68 @@ Lemma ex_roundtrip :
                   fst (save_graph h' g') = Ok j /\ nodes g' = [3; 4; 5] /\
                   pars h' 3 = [5; 4] /\ node_name (getn h' 3) = Some "3".
 Proof. do 3 eexists. repeat split; vm_compute; reflexivity. Qed.
+
+(* ================================================================= the oracle accepts what the theorems describe *)
+(* holds_graph (Serial/GraphCodec.v) is what the harness evaluates on the OBSERVED behaviour.
+   Here: an observation that coincides with the model's behaviour on a well-formed graph (and
+   whose python-level flags are true) satisfies every clause of the oracle.  So the oracle asks
+   for nothing the theorems do not give. *)
+Lemma opt_str_eqb_refl : forall o : option string, opt_eqb String.eqb o o = true.
+Proof. intros [s|]; simpl; [apply String.eqb_refl|reflexivity]. Qed.
+
+Lemma name_defined : forall nd, is_ok (stringify_name (content nd)) = true -> is_none (node_name nd) = false.
+Proof.
+  intros nd H. unfold node_name.
+  destruct (stringify_cases (content nd)) as [[E [L|L]]|[[v [s [L [N [P E]]]]]|[e E]]]; try rewrite L; try reflexivity.
+  - destruct v; try congruence; rewrite P; reflexivity.
+  - rewrite E in H. discriminate.
+Qed.
+
+Lemma uid_at_get : forall h r nd, get h r = Some nd -> uid_at h r = Some (uid nd).
+Proof. intros h r nd E. unfold uid_at. rewrite E. reflexivity. Qed.
+
+Lemma forallb2_map_r : forall {A B} (p : A -> B -> bool) (F : A -> B) l,
+  (forall a, In a l -> p a (F a) = true) -> forallb2 p l (map F l) = true.
+Proof.
+  induction l as [|a t IH]; intros H; simpl; [reflexivity|].
+  rewrite H by (left; reflexivity). apply IH. intros x Hx. apply H. right. exact Hx.
+Qed.
+
+Theorem oracle_accepts_model : forall h g j h' g' o, WF h g ->
+  fst (save_graph h g) = Ok j -> load_graph h j = Ok (h', g') ->
+  o_json o = Some j -> o_after o = snd (save_graph h g) ->
+  o_loaded o = Some (skipn (List.length h) h', g') ->
+  o_resave o = (match fst (save_graph h' g') with Ok j2 => Some j2 | Raise _ => None end) ->
+  o_text_same o = true -> o_descid_same o = true -> o_eq o = true ->
+  holds_graph h g o = [true; true; true; true].
+Proof.
+  intros h g j h' g' o W S L Oj Oa Ol Or Ot Od Oe.
+  pose proof (load_save_iso h g h j h' g' W S L) as I. cbv zeta in I. destruct I as [K [N [F [Inj P]]]].
+  pose proof (save_load_save h g h j h' g' W S L) as RS.
+  assert (Hh : h ++ skipn (List.length h) h' = h').
+  { rewrite (load_save_graph h g h j W S) in L. inversion L; subst.
+    rewrite skipn_app, skipn_all, Nat.sub_diag. reflexivity. }
+  unfold holds_graph. rewrite Oj, Oa, Ol, Or, Ot, Od, Oe, RS, save_graph_pure, Hh.
+  assert (E1 : heap_eqb h h = true) by (apply heap_eqb_eq; reflexivity). rewrite E1.
+  assert (E4 : opt_eqb json_eqb (Some j) (Some j) = true) by (simpl; apply json_eqb_refl). rewrite E4.
+  assert (X : same_graph h g h' g' && fresh_from h g' = true); [|rewrite X; reflexivity].
+  apply andb_true_iff. split.
+  - unfold same_graph. rewrite K. apply andb_true_iff. split; [destruct (kind g); reflexivity|].
+    rewrite N. apply forallb2_map_r. intros r Hr.
+    destruct (P r Hr) as [nd' [G' [U [C [Nm [Pm [Pa Q]]]]]]].
+    unfold same_node. rewrite (WF_get _ _ _ W Hr), G'.
+    rewrite U, String.eqb_refl, Nm, opt_str_eqb_refl, (name_defined _ (wf_name _ _ W r Hr)), Pm, json_eqb_refl, Q.
+    simpl. rewrite !andb_true_r. apply andb_true_iff. split.
+    + apply list_eqb_eq.
+      * intros [a|] [b|]; simpl; try (split; congruence). rewrite String.eqb_eq.
+        split; [intros ->; reflexivity|intros E; inversion E; reflexivity].
+      * rewrite Pa, map_map. apply map_ext_in. intros p Hp.
+        assert (Hpg : In p (nodes g)) by (apply (wf_closed _ _ W r); assumption).
+        destruct (P p Hpg) as [pd' [Gp' [Up _]]].
+        rewrite (uid_at_get _ _ _ (WF_get _ _ _ W Hpg)), (uid_at_get _ _ _ Gp'), Up. reflexivity.
+    + apply forallb_forall. intros p Hp.
+      assert (Hpg : In p (nodes g)) by (apply (wf_closed _ _ W r); assumption).
+      rewrite (uid_at_get _ _ _ (WF_get _ _ _ W Hpg)). reflexivity.
+  - unfold fresh_from. apply forallb_forall. intros x Hx. rewrite N in Hx. apply in_map_iff in Hx.
+    destruct Hx as [r [<- Hr]]. apply Nat.leb_le. apply F. exact Hr.
+Qed.
